@@ -4,6 +4,7 @@ package main
 // One Exec = one verification unit (one function under contract).
 
 import (
+	"os"
 	"fmt"
 	"go/constant"
 	"go/token"
@@ -69,6 +70,9 @@ type Exec struct {
 	idBound     map[string]Term // heap array symbol (of a slice-id leaf) -> frontier at its creation
 	refBound    map[string]Term // heap array symbol -> allocation frontier at its creation
 	localArrs   []localArr      // arrays allocated by the code under verification
+	locals      []*localObj     // other objects allocated by the code under verification
+	localByRoot map[string]*localObj
+	contains    map[string]map[string]bool // local container -> local objects stored in it
 	escaped     map[string]bool // by ref term: handed to a call that is not followed
 	curArgs     []Val
 	specDepth   int
@@ -131,9 +135,11 @@ func (x *Exec) addObl(name, kind, text string, props []string, part OblPart, adv
 func (x *Exec) newState() *State {
 	st := &State{heap: map[string]Term{}, ghost: map[string]Val{}, res: baseResolver}
 	st.ctr = x.c.Named("ctr0", SRef)
+	// (the allocation counter does not wrap around: fewer than 2^31 objects)
+	x.c.Assume(Op("bvult", SBool, st.ctr, BVLit(1<<31, 32)))
 	st.sctr = x.c.Named("sctr0", SBV(64))
 	x.c.Assume(Op("bvult", SBool, BVLit(0, 64), st.sctr))
-	x.c.Assume(Op("bvult", SBool, st.sctr, BVLit(1<<62, 64)))
+	x.c.Assume(Op("bvult", SBool, st.sctr, BVLit(1<<61, 64)))
 	st.held = x.c.Named("held0", SArr(SBV(64), SBool))
 	return st
 }
@@ -641,6 +647,9 @@ func (x *Exec) loopHeader(fr *frame, h *ssa.BasicBlock, ordinal int, st *State, 
 			eff.add(x.instrEffects(ins, 0))
 		}
 	}
+	if (len(x.locals) > 0 || len(x.localArrs) > 0) && loopMayLeak(body) {
+		x.escapeAllLocals()
+	}
 	x.havocEffects(st, eff, fmt.Sprintf("%s_loop%d", fr.prefix, ordinal))
 	// the visited set of a map iteration driven by this loop is loop-variant too
 	for b := range body {
@@ -743,16 +752,155 @@ type localArr struct {
 	base Term // the array object's reference (zero Term for slices produced by pure calls)
 }
 
-// noteEscapes: arguments of a call that is not followed may make a local array
-// reachable for the callee (its address, or a slice of it).
+// ---- local objects -------------------------------------------------------
+//
+// An object allocated by the code under verification (or by a constructor that
+// is followed) cannot be reached by a callee that is not followed until a
+// reference to it escapes: it is handed to such a call, stored into an object
+// that is not local itself (or that escapes later), captured by a closure, sent
+// on a channel, or put into a map. Until then its content survives the havoc a
+// call causes (see havocEffects). References are tracked through definitions
+// (Ctx.RootsIn), only in value positions that can carry a reference.
+
+type localCell struct {
+	key string
+	srt Sort
+	idx Term
+}
+
+type localObj struct {
+	root  string
+	cells []localCell
+}
+
+// carrierType: a value of this type may hold a reference to an object.
+func carrierType(t types.Type) bool {
+	return carrierType1(t, 0)
+}
+
+func carrierType1(t types.Type, d int) bool {
+	if t == nil || d > 8 {
+		return true
+	}
+	switch u := t.Underlying().(type) {
+	case *types.Basic:
+		return u.Kind() == types.UnsafePointer || u.Kind() == types.Uintptr
+	case *types.Struct:
+		for i := 0; i < u.NumFields(); i++ {
+			if carrierType1(u.Field(i).Type(), d+1) {
+				return true
+			}
+		}
+		return false
+	case *types.Array:
+		return carrierType1(u.Elem(), d+1)
+	case *types.Tuple:
+		for i := 0; i < u.Len(); i++ {
+			if carrierType1(u.At(i).Type(), d+1) {
+				return true
+			}
+		}
+		return false
+	}
+	return true
+}
+
+func (x *Exec) trackLocal(root Term, cells []localCell) {
+	if root.S == "" || strings.ContainsAny(root.S, " (") {
+		return
+	}
+	if x.localByRoot == nil {
+		x.localByRoot = map[string]*localObj{}
+	}
+	if lo, ok := x.localByRoot[root.S]; ok {
+		lo.cells = append(lo.cells, cells...)
+		return
+	}
+	lo := &localObj{root: root.S, cells: cells}
+	x.localByRoot[root.S] = lo
+	x.locals = append(x.locals, lo)
+	x.c.AddRoot(root.S)
+}
+
+// valRoots: the local objects a value may refer to.
+func (x *Exec) valRoots(v Val) map[string]bool {
+	out := map[string]bool{}
+	if len(x.locals) == 0 {
+		return out
+	}
+	add := func(t Term) {
+		if t.S == "" {
+			return
+		}
+		for r := range x.c.RootsIn(t) {
+			out[r] = true
+		}
+	}
+	if v.A != nil {
+		add(v.A.Base)
+		add(v.A.SliceID)
+	}
+	if v.T == nil || v.MI {
+		for _, t := range v.L {
+			add(t)
+		}
+		return out
+	}
+	sh := shape(v.T)
+	if len(sh) != len(v.L) {
+		for _, t := range v.L {
+			add(t)
+		}
+		return out
+	}
+	for i, l := range sh {
+		if strings.HasSuffix(l.Path, "#len") || strings.HasSuffix(l.Path, "#cap") {
+			continue
+		}
+		if l.Typ != nil && !carrierType(l.Typ) {
+			continue
+		}
+		add(v.L[i])
+	}
+	return out
+}
+
+func (x *Exec) escapeRoots(rs map[string]bool) {
+	if x.escaped == nil {
+		x.escaped = map[string]bool{}
+	}
+	var work []string
+	for r := range rs {
+		work = append(work, r)
+	}
+	for len(work) > 0 {
+		r := work[len(work)-1]
+		work = work[:len(work)-1]
+		if x.escaped[r] {
+			continue
+		}
+		x.escaped[r] = true
+		if os.Getenv("GOVC_DBG_ESC") != "" {
+			fmt.Fprintf(os.Stderr, "DBG escape %s in %s (call %v)\n", r, x.fname(), x.curCC)
+		}
+		for m := range x.contains[r] {
+			work = append(work, m)
+		}
+	}
+}
+
+// noteEscapes: arguments of a call that is not followed make the local objects
+// they refer to (and everything stored in those) reachable for the callee.
 func (x *Exec) noteEscapes(args []Val) {
-	if len(x.localArrs) == 0 {
+	if len(x.localArrs) == 0 && len(x.locals) == 0 {
 		return
 	}
 	if x.escaped == nil {
 		x.escaped = map[string]bool{}
 	}
 	for _, a := range args {
+		x.escapeRoots(x.valRoots(a))
+		// slices produced by pure calls are identified by a compound term
 		var ts []Term
 		ts = append(ts, a.L...)
 		if a.A != nil {
@@ -763,7 +911,7 @@ func (x *Exec) noteEscapes(args []Val) {
 				continue
 			}
 			for _, la := range x.localArrs {
-				if !x.escaped[la.ref] && (strings.Contains(t.S, la.ref) || strings.Contains(t.S, la.id.S)) {
+				if la.base.S == "" && !x.escaped[la.ref] && strings.Contains(t.S, la.id.S) {
 					x.escaped[la.ref] = true
 				}
 			}
@@ -771,24 +919,152 @@ func (x *Exec) noteEscapes(args []Val) {
 	}
 }
 
+// noteStore: a reference to a local object stored into another local object
+// shares that object's fate; stored anywhere else it has escaped.
+func (x *Exec) noteStore(a *Addr, v Val) {
+	if len(x.locals) == 0 {
+		return
+	}
+	rs := x.valRoots(v)
+	if len(rs) == 0 {
+		return
+	}
+	container := ""
+	if a != nil {
+		switch a.Kind {
+		case addrObj, addrArrIdx:
+			if _, ok := x.localByRoot[a.Base.S]; ok {
+				container = a.Base.S
+			}
+		case addrElem:
+			for _, la := range x.localArrs {
+				if la.base.S != "" && la.id.S == a.SliceID.S {
+					container = la.ref
+				}
+			}
+		}
+	}
+	if container == "" || x.escaped[container] {
+		x.escapeRoots(rs)
+		return
+	}
+	if x.contains == nil {
+		x.contains = map[string]map[string]bool{}
+	}
+	if x.contains[container] == nil {
+		x.contains[container] = map[string]bool{}
+	}
+	for r := range rs {
+		if r != container {
+			x.contains[container][r] = true
+		}
+	}
+}
+
+// loopMayLeak: some instruction of the loop body can make a reference reachable
+// for code that is not followed. The body is executed once, for an arbitrary
+// iteration: an object that escapes late in the body has escaped already at the
+// top of the next iteration, so objects allocated before such a loop are treated
+// as escaped from its header on.
+func loopMayLeak(body map[*ssa.BasicBlock]bool) bool {
+	for b := range body {
+		for _, ins := range b.Instrs {
+			switch i := ins.(type) {
+			case *ssa.Store:
+				if carrierType(i.Val.Type()) {
+					return true
+				}
+			case *ssa.MapUpdate:
+				if carrierType(i.Value.Type()) || carrierType(i.Key.Type()) {
+					return true
+				}
+			case *ssa.Send:
+				if carrierType(i.X.Type()) {
+					return true
+				}
+			case *ssa.MakeClosure:
+				if len(i.Bindings) > 0 {
+					return true
+				}
+			case *ssa.Go, *ssa.Defer:
+				return true
+			case *ssa.Call:
+				if bi, ok := i.Call.Value.(*ssa.Builtin); ok {
+					switch bi.Name() {
+					case "len", "cap", "min", "max", "print", "println", "delete", "clear", "close":
+						continue
+					}
+				}
+				if i.Call.IsInvoke() {
+					return true
+				}
+				if _, isFn := i.Call.Value.(*ssa.Function); !isFn {
+					if _, isB := i.Call.Value.(*ssa.Builtin); !isB {
+						return true // closure / function value: its captures are unknown here
+					}
+				}
+				for _, a := range i.Call.Args {
+					if carrierType(a.Type()) {
+						return true
+					}
+				}
+			}
+		}
+	}
+	return false
+}
+
+func (x *Exec) escapeAllLocals() {
+	if os.Getenv("GOVC_DBG_ESC") != "" {
+		fmt.Fprintf(os.Stderr, "DBG escape ALL (loop header) in %s fn=%v\n", x.fname(), x.curFn)
+	}
+	if x.escaped == nil {
+		x.escaped = map[string]bool{}
+	}
+	for _, la := range x.localArrs {
+		x.escaped[la.ref] = true
+	}
+	for _, lo := range x.locals {
+		x.escaped[lo.root] = true
+	}
+}
+
 // havocEffects replaces every heap key matched by eff with a fresh array.
 func (x *Exec) havocEffects(st *State, eff *Effects, tag string) {
-	// local arrays that never escaped keep their content
+	x.havocEffectsK(st, eff, tag, false)
+}
+
+// havocEffectsK: with keepLocals (the havoc is what a callee that is not
+// followed may have done), local objects that never escaped keep their content.
+func (x *Exec) havocEffectsK(st *State, eff *Effects, tag string, keepLocals bool) {
 	type keep struct {
-		la  localArr
+		c   localCell
 		old Term
 	}
 	var keeps []keep
-	for _, la := range x.localArrs {
-		if x.escaped[la.ref] || !(eff.All || eff.matches(la.key)) {
-			continue
+	if keepLocals {
+		for _, la := range x.localArrs {
+			if x.escaped[la.ref] || !(eff.All || eff.matches(la.key)) {
+				continue
+			}
+			keeps = append(keeps, keep{localCell{la.key, la.srt, la.id}, Select(x.heapGet(st, la.key, la.srt), la.id)})
 		}
-		keeps = append(keeps, keep{la, Select(x.heapGet(st, la.key, la.srt), la.id)})
+		for _, lo := range x.locals {
+			if x.escaped[lo.root] {
+				continue
+			}
+			for _, c := range lo.cells {
+				if !(eff.All || eff.matches(c.key)) {
+					continue
+				}
+				keeps = append(keeps, keep{c, Select(x.heapGet(st, c.key, c.srt), c.idx)})
+			}
+		}
 	}
 	defer func() {
 		for _, k := range keeps {
-			cur := x.heapGet(st, k.la.key, k.la.srt)
-			x.heapSet(st, k.la.key, Store(cur, k.la.id, k.old))
+			cur := x.heapGet(st, k.c.key, k.c.srt)
+			x.heapSet(st, k.c.key, Store(cur, k.c.idx, k.old))
 		}
 	}()
 	x.inst++
@@ -812,10 +1088,11 @@ func (x *Exec) havocEffects(st *State, eff *Effects, tag string) {
 		old := st.ctr
 		st.ctr = x.c.Fresh("ctr_"+tag, SRef)
 		x.c.Assume(Op("bvule", SBool, old, st.ctr))
+		x.c.Assume(Op("bvult", SBool, st.ctr, BVLit(1<<31, 32)))
 		olds := st.sctr
 		st.sctr = x.c.Fresh("sctr_"+tag, SBV(64))
 		x.c.Assume(Op("bvule", SBool, olds, st.sctr))
-		x.c.Assume(Op("bvult", SBool, st.sctr, BVLit(1<<62, 64)))
+		x.c.Assume(Op("bvult", SBool, st.sctr, BVLit(1<<61, 64)))
 		st.res.sctr = st.sctr
 		st.res.ctr = st.ctr
 	}
